@@ -284,7 +284,7 @@ def ynode_pass(ctx, rng, n, dist):
     os.makedirs(d, exist_ok=True)
     cases = []
     for i in range(n):
-        tree, text = ynodes.document(rng.fork("d%d" % i), bad=(i % 5 == 4))
+        tree, text = ynodes.document(rng.fork("d%d" % i), bad=(i % 5 == 4), selfref=(i % 7 == 6))
         fn = "yn%d.yaml" % i
         open(os.path.join(d, fn), "w").write(text)
         cases.append((tree, text, fn))
@@ -292,19 +292,22 @@ def ynode_pass(ctx, rng, n, dist):
     mo = ctx.model([["ynode", tree] for tree, _, _ in cases])
     dist["ynode_cases"] = n
     dist["ynode_rejected"] = sum(1 for m in mo if m[0] == "err")
+    dist["ynode_self_referential"] = sum(1 for tree, _, _ in cases if "'aliasup'" in repr(tree))
     dist["ynode_with_merge_key"] = sum(1 for _, text, _ in cases if "<<:" in text)
     for (tree, text, fn), g, m in zip(cases, impl, mo):
         if m[0] == "err" and m[1] == "oracle":
             continue
         why = None
-        if (g[0] == "ok") != (m[0] == "ok"):
+        if g[0] not in ("ok", "err"):
+            why = "loading the YAML text ends in %s: %s (the model: %s)" % (g[0], str(g[1:])[:200], m[:2])
+        elif (g[0] == "ok") != (m[0] == "ok"):
             why = "bkl %s the YAML text but the model %s its node tree" % ("loads" if g[0] == "ok" else "rejects (%s)" % (g[1:],), "translates" if m[0] == "ok" else "rejects (%s)" % m[1])
         elif g[0] == "ok" and not veq(g[1], [m[1]]):
             why = "bkl loads %s, the node tree denotes %s" % (hist.short(g[1]), hist.short([m[1]]))
         if why and len(ctx.violations) < 5:
             # the model and bkl differ: does an independent YAML implementation also differ from bkl on this text?
             ref = pyyaml_view(text)
-            confirmed = ref is not None and g[0] == "ok" and not veq(g[1], [ref]) and "~:" not in text
+            confirmed = (ref is not None and g[0] == "ok" and not veq(g[1], [ref]) and "~:" not in text) or g[0] not in ("ok", "err")
             ctx.violations.append({"name": "ynode-" + core.vhash(text), "property": "C04",
                                    "kind": "failing-input" if confirmed else "no-failing-input-found",
                                    "theorem": "C04_yaml_merge_list / C04_yaml_plain_nodes (Properties/C04.v) are about Model.Yaml.ytranslate; correspondence of yaml.go with it broke",
